@@ -217,9 +217,16 @@ pub fn mon_get(s: &mut dyn Subject, ctx: &mut Ctx, filt: &dyn Fn(&CaseDesc, &Fie
         for i in elem_indices(fd.count(), ctx.cfg.tiny) {
             let pos = fd.positions(i);
             let fmask = pos_mask(&pos);
-            let (raws, exh) = gen::raws(bw, fmask, &mut rng, ctx.cfg, ctx.cfg.n_rand_raw);
+            let (mut raws, exh) = gen::raws(bw, fmask, &mut rng, ctx.cfg, ctx.cfg.n_rand_raw);
             if exh {
                 *ctx.st.exhaustive_spaces.entry(format!("get: all 2^{} raw values", bw)).or_insert(0) += 1;
+            } else if let Some(dv) = d.default {
+                // the declared default and its neighbours are raw values like any other
+                for x in [dv, dv ^ 1, dv ^ (fmask & dv.wrapping_neg() & dv), !dv & mask(bw)] {
+                    if !raws.contains(&x) {
+                        raws.push(x & mask(bw));
+                    }
+                }
             }
             let mut first: Option<Obs> = None;
             let mut distinct = false;
